@@ -75,7 +75,8 @@ class Associate(Block):
             link_name, nsub = re.subn(r"\([^()]*\)", "", assoc.link_name)
             while nsub:
                 link_name, nsub = re.subn(r"\([^()]*\)", "", link_name)
-            assoc.link_name = link_name
+            # `a (i)%b (j)`: blanks may precede a subscript
+            assoc.link_name = "".join(link_name.split())
             assoc.var.link_obj = None
             var_stack = get_var_stack(assoc.link_name)
             is_member = len(var_stack) > 1
